@@ -70,6 +70,6 @@ package index
 // NewKeySet: the view is exactly the argument list; in particular a first key that is nil
 // (index.String("") is nil) still counts as one (empty) key.
 //@ func NewKeySet
-//@   property C04
+//@   property C04 C18
 //@   ensures len(keys) == 0 ==> result.head == nil
 //@   ensures len(keys) > 0 ==> result.head != nil && bytesEq(result.head, keys[0]) && result.tail == keys[1:]
